@@ -14,7 +14,7 @@ RULE = ("every DER reader is run on every input of an enumerated/constructed set
         "non-trivial key = (reader, library outcome, reference outcome/defect reason, input length)")
 ASSUMPTIONS = ["reference strict TLV codec vf/ref/der_ref.py (self-tested on literal encodings)",
                "legacy (no expect_unused) BIT STRING convention is judged only on TLV structure, not on padding bits"]
-REQUIRED = {"quick": ["accept.integer", "accept.length", "accept.object", "accept.bitstring", "accept.octet_string",
+REQUIRED = {"quick": ["memo_pressure", "reentrant_calls", "roundtrip.integer_long_body", "accept.integer", "accept.length", "accept.object", "accept.bitstring", "accept.octet_string",
                       "accept.sequence", "accept.constructed", "reject.integer", "reject.octet_string", "reject.bitstring",
                       "reject.constructed", "roundtrip.integer", "roundtrip.oid", "roundtrip.length", "roundtrip.bitstring",
                       "roundtrip.octet_string", "roundtrip.sequence", "roundtrip.constructed"]}
